@@ -56,6 +56,10 @@ def check(run, repo):
         ([Fr(1, 2), 1], [Fr(3, 2)], [1]),
         ([Fr(1, 4), 2, 1], [1, Fr(5, 2)], None),
         ([4], [Fr(1, 4), 1, 1, 2], [1, 1]),
+        # coefficients that are an integer up to floating-point noise (0.1*3*10), from below and from above
+        ([2 - Fr(1, 10 ** 13), 1], [3 + Fr(1, 10 ** 13)], [1 - Fr(1, 10 ** 14)]),
+        # coefficients near, but visibly not at, an integer
+        ([Fr('1.995'), 1], [Fr('2.004')], [Fr('0.996')]),
     ]
     fmts = ['.2f', '.3f']
     for (sd, rd), (rs, ps, ts), space, fmt in itertools.product(delims, stoichs, (False, True), fmts):
@@ -100,6 +104,8 @@ def check(run, repo):
             if isinstance(x, Fr) and x != 1 and x.denominator != 1:
                 return C(Fr(format(float(x), fmt)))
             return C(x)
+        if any(isinstance(x, Fr) and x.denominator > 10 ** 6 for x in rs + ps + (ts or [])):
+            label += ' [integer up to rounding noise]'
         ok = True
         why = ''
         for attr, objs, vals in (('reactants', R_, rs), ('products', P_, ps), ('transition_state', T_, ts)):
